@@ -64,6 +64,9 @@ Inductive case :=
      cond = Some b for the conditional variant with is_seasonal_ = b;
      ups: first time point of each update batch, in call order *)
   | CDes (d0 : dstate) (cond : option bool) (ups : list Z) (z : series) (zt zi : iseries)
+  (* training series: full = the seasonal series returned by the decomposition call inside fit
+     (recorded by a spy), seasonal = the fitted seasonal_, yt = fit_transform(y) *)
+  | CTrain (sp : Z) (m : smodel) (full seasonal : list Q) (y : series) (yt : iseries)
   (* t0: first TRAINING time point; coef: the fitted polynomial's coefficients after all updates *)
   | CDet (t0 : Z) (coef : list Q) (z : series) (zt zi : iseries)
   | CStd (m s : Q) (z : series) (zt zi : iseries)
@@ -89,6 +92,11 @@ Definition check (c : case) : bool :=
       qlist_close (d_seasonal d1) (d_seasonal d0) &&
       (Z.of_nat (length (d_seasonal d0)) =? d_sp d0) &&
       agree (des_transform d) (des_inverse d) z zt zi
+  | CTrain sp m full seasonal y yt =>
+      let d := {| d_sp := sp; d_model := m; d_t0 := sstart y; d_seasonal := seasonal |} in
+      qlist_close (firstn (Z.to_nat sp) full) seasonal &&
+      ser_close (des_transform d y) yt &&
+      ser_close (series_arr_op (op_fwd m) y full) yt
   | CDet t0 coef z zt zi =>
       agree (det_transform (poly_trend coef t0)) (det_inverse (poly_trend coef t0)) z zt zi
   | CStd m s z zt zi => agree (pw_apply (std_fwd m s)) (pw_apply (std_inv m s)) z zt zi
